@@ -1,0 +1,223 @@
+//! Verification hooks (feature `verif-hooks`, non-default, add-only).
+//!
+//! Thin wrappers that expose crate-private functions over plain arrays so that an
+//! external harness can run them in-process. Nothing here is compiled unless the
+//! `verif-hooks` feature is enabled; no existing item is changed.
+#![allow(missing_docs, clippy::pedantic, clippy::all, unreachable_pub, unused_results)]
+#![allow(clippy::missing_errors_doc, clippy::missing_panics_doc, clippy::type_complexity)]
+
+use crate::types::{PrivateKey, PublicKey, R, T};
+use crate::{conversion, encodings, hashing, helpers, high_low, ml_dsa, ntt as nttm};
+
+/// Plain polynomial
+pub type P = [i32; 256];
+
+fn r_of(p: &P) -> R { R(*p) }
+fn rs<const N: usize>(v: &[P; N]) -> [R; N] { core::array::from_fn(|i| R(v[i])) }
+fn ts<const N: usize>(v: &[P; N]) -> [T; N] { core::array::from_fn(|i| T(v[i])) }
+fn ur<const N: usize>(v: &[R; N]) -> [P; N] { core::array::from_fn(|i| v[i].0) }
+fn ut<const N: usize>(v: &[T; N]) -> [P; N] { core::array::from_fn(|i| v[i].0) }
+
+// ---- crate constants
+pub const Q: i32 = crate::Q;
+pub const ZETA: i32 = crate::ZETA;
+pub const D: u32 = crate::D;
+pub fn zeta_table_mont() -> [i32; 256] { helpers::ZETA_TABLE_MONT }
+
+// ---- scalar kernels (helpers.rs, high_low.rs, conversion.rs)
+pub fn partial_reduce32(a: i32) -> i32 { helpers::partial_reduce32(a) }
+pub fn partial_reduce64(a: i64) -> i32 { helpers::partial_reduce64(a) }
+pub fn full_reduce32(a: i32) -> i32 { helpers::full_reduce32(a) }
+pub fn center_mod(a: i32) -> i32 { helpers::center_mod(a) }
+pub fn mont_reduce(a: i64) -> i32 { helpers::mont_reduce(a) }
+pub fn bit_length(a: i32) -> usize { helpers::bit_length(a) }
+pub fn decompose(gamma2: i32, r: i32) -> (i32, i32) { high_low::decompose(gamma2, r) }
+pub fn high_bits(gamma2: i32, r: i32) -> i32 { high_low::high_bits(gamma2, r) }
+pub fn low_bits(gamma2: i32, r: i32) -> i32 { high_low::low_bits(gamma2, r) }
+pub fn make_hint(gamma2: i32, z: i32, r: i32) -> bool { high_low::make_hint(gamma2, z, r) }
+pub fn use_hint(gamma2: i32, h: i32, r: i32) -> i32 { high_low::use_hint(gamma2, h, r) }
+pub fn power2round<const K: usize>(r: &[P; K]) -> ([P; K], [P; K]) {
+    let (a, b) = high_low::power2round(&rs(r));
+    (ur(&a), ur(&b))
+}
+pub fn coeff_from_three_bytes<const CTEST: bool>(b: [u8; 3]) -> Result<i32, &'static str> {
+    conversion::coeff_from_three_bytes::<CTEST>(b)
+}
+pub fn coeff_from_half_byte<const CTEST: bool>(eta: i32, b: u8) -> Result<i32, &'static str> {
+    conversion::coeff_from_half_byte::<CTEST>(eta, b)
+}
+
+// ---- vector helpers
+pub fn is_in_range(w: &P, lo: i32, hi: i32) -> bool { helpers::is_in_range(&r_of(w), lo, hi) }
+pub fn infinity_norm<const N: usize>(w: &[P; N]) -> i32 { helpers::infinity_norm(&rs(w)) }
+pub fn ntt<const N: usize>(w: &[P; N]) -> [P; N] { ut(&nttm::ntt(&rs(w))) }
+pub fn inv_ntt<const N: usize>(w: &[P; N]) -> [P; N] { ur(&nttm::inv_ntt(&ts(w))) }
+pub fn to_mont<const N: usize>(w: &[P; N]) -> [P; N] { ut(&helpers::to_mont(&ts(w))) }
+pub fn add_vector_ntt<const N: usize>(v: &[P; N], w: &[P; N]) -> [P; N] {
+    ur(&helpers::add_vector_ntt(&rs(v), &rs(w)))
+}
+pub fn mat_vec_mul<const K: usize, const L: usize>(a: &[[P; L]; K], u: &[P; L]) -> [P; K] {
+    let a_hat: [[T; L]; K] = core::array::from_fn(|i| ts(&a[i]));
+    ut(&helpers::mat_vec_mul(&a_hat, &ts(u)))
+}
+/// `inv_ntt(mat_vec_mul(a, u))`: the composition used by keygen, sign, verify and derive
+pub fn mat_vec_mul_inv_ntt<const K: usize, const L: usize>(a: &[[P; L]; K], u: &[P; L]) -> [P; K] {
+    let a_hat: [[T; L]; K] = core::array::from_fn(|i| ts(&a[i]));
+    ur(&nttm::inv_ntt(&helpers::mat_vec_mul(&a_hat, &ts(u))))
+}
+
+// ---- conversion.rs
+pub fn bit_pack(w: &P, a: i32, b: i32, out: &mut [u8]) { conversion::bit_pack(&r_of(w), a, b, out) }
+pub fn simple_bit_pack(w: &P, b: i32, out: &mut [u8]) {
+    conversion::simple_bit_pack(&r_of(w), b, out)
+}
+pub fn bit_unpack(v: &[u8], a: i32, b: i32) -> Result<P, &'static str> {
+    conversion::bit_unpack(v, a, b).map(|r| r.0)
+}
+pub fn simple_bit_unpack(v: &[u8], b: i32) -> Result<P, &'static str> {
+    conversion::simple_bit_unpack(v, b).map(|r| r.0)
+}
+pub fn hint_bit_pack<const CTEST: bool, const K: usize>(omega: i32, h: &[P; K], out: &mut [u8]) {
+    conversion::hint_bit_pack::<CTEST, K>(omega, &rs(h), out)
+}
+pub fn hint_bit_unpack<const K: usize>(omega: i32, y: &[u8]) -> Result<[P; K], &'static str> {
+    conversion::hint_bit_unpack::<K>(omega, y).map(|h| ur(&h))
+}
+
+// ---- encodings.rs
+pub fn pk_encode<const K: usize, const PK_LEN: usize>(rho: &[u8; 32], t1: &[P; K]) -> [u8; PK_LEN] {
+    encodings::pk_encode::<K, PK_LEN>(rho, &rs(t1))
+}
+pub fn pk_decode<const K: usize, const PK_LEN: usize>(
+    pk: &[u8; PK_LEN],
+) -> Result<([u8; 32], [P; K]), &'static str> {
+    encodings::pk_decode::<K, PK_LEN>(pk).map(|(rho, t1)| (*rho, ur(&t1)))
+}
+pub fn sk_encode<const K: usize, const L: usize, const SK_LEN: usize>(
+    eta: i32, rho: &[u8; 32], k: &[u8; 32], tr: &[u8; 64], s1: &[P; L], s2: &[P; K], t0: &[P; K],
+) -> [u8; SK_LEN] {
+    encodings::sk_encode::<K, L, SK_LEN>(eta, rho, k, tr, &rs(s1), &rs(s2), &rs(t0))
+}
+pub fn sk_decode<const K: usize, const L: usize, const SK_LEN: usize>(
+    eta: i32, sk: &[u8; SK_LEN],
+) -> Result<([u8; 32], [u8; 32], [u8; 64], [P; L], [P; K], [P; K]), &'static str> {
+    encodings::sk_decode::<K, L, SK_LEN>(eta, sk)
+        .map(|(rho, k, tr, s1, s2, t0)| (*rho, *k, *tr, ur(&s1), ur(&s2), ur(&t0)))
+}
+pub fn sig_encode<
+    const CTEST: bool,
+    const K: usize,
+    const L: usize,
+    const LAMBDA_DIV4: usize,
+    const SIG_LEN: usize,
+>(
+    gamma1: i32, omega: i32, c_tilde: &[u8; LAMBDA_DIV4], z: &[P; L], h: &[P; K],
+) -> [u8; SIG_LEN] {
+    encodings::sig_encode::<CTEST, K, L, LAMBDA_DIV4, SIG_LEN>(gamma1, omega, c_tilde, &rs(z), &rs(h))
+}
+pub fn sig_decode<const K: usize, const L: usize, const LAMBDA_DIV4: usize, const SIG_LEN: usize>(
+    gamma1: i32, omega: i32, sigma: &[u8; SIG_LEN],
+) -> Result<([u8; LAMBDA_DIV4], [P; L], Option<[P; K]>), &'static str> {
+    encodings::sig_decode::<K, L, LAMBDA_DIV4, SIG_LEN>(gamma1, omega, sigma)
+        .map(|(c, z, h)| (c, ur(&z), h.map(|h| ur(&h))))
+}
+pub fn w1_encode<const K: usize>(gamma2: i32, w1: &[P; K], out: &mut [u8]) {
+    encodings::w1_encode::<K>(gamma2, &rs(w1), out)
+}
+
+// ---- hashing.rs
+pub fn sample_in_ball<const CTEST: bool>(tau: i32, rho: &[u8]) -> P {
+    hashing::sample_in_ball::<CTEST>(tau, rho).0
+}
+pub fn rej_ntt_poly<const CTEST: bool>(rho: &[u8]) -> P { hashing::rej_ntt_poly::<CTEST>(&[rho]).0 }
+pub fn rej_bounded_poly<const CTEST: bool>(eta: i32, rho: &[u8]) -> P {
+    hashing::rej_bounded_poly::<CTEST>(eta, &[rho]).0
+}
+pub fn expand_a<const CTEST: bool, const K: usize, const L: usize>(rho: &[u8; 32]) -> [[P; L]; K] {
+    let a = hashing::expand_a::<CTEST, K, L>(rho);
+    core::array::from_fn(|i| ut(&a[i]))
+}
+pub fn expand_s<const CTEST: bool, const K: usize, const L: usize>(
+    eta: i32, rho: &[u8; 64],
+) -> ([P; L], [P; K]) {
+    let (s1, s2) = hashing::expand_s::<CTEST, K, L>(eta, rho);
+    (ur(&s1), ur(&s2))
+}
+pub fn expand_mask<const L: usize>(gamma1: i32, rho: &[u8; 64], mu: u16) -> [P; L] {
+    ur(&hashing::expand_mask::<L>(gamma1, rho, mu))
+}
+pub fn hash_message(message: &[u8], ph: &crate::Ph, phm: &mut [u8; 64]) -> ([u8; 11], usize) {
+    hashing::hash_message(message, ph, phm)
+}
+
+// ---- key structs <-> plain fields
+pub fn sk_fields<const K: usize, const L: usize>(
+    sk: &PrivateKey<K, L>,
+) -> ([u8; 32], [u8; 32], [u8; 64], [P; L], [P; K], [P; K]) {
+    (sk.rho, sk.cap_k, sk.tr, ut(&sk.s_1_hat_mont), ut(&sk.s_2_hat_mont), ut(&sk.t_0_hat_mont))
+}
+pub fn sk_from_fields<const K: usize, const L: usize>(
+    rho: [u8; 32], cap_k: [u8; 32], tr: [u8; 64], s1: &[P; L], s2: &[P; K], t0: &[P; K],
+) -> PrivateKey<K, L> {
+    PrivateKey {
+        rho,
+        cap_k,
+        tr,
+        s_1_hat_mont: ts(s1),
+        s_2_hat_mont: ts(s2),
+        t_0_hat_mont: ts(t0),
+    }
+}
+pub fn pk_fields<const K: usize, const L: usize>(pk: &PublicKey<K, L>) -> ([u8; 32], [u8; 64], [P; K]) {
+    (pk.rho, pk.tr, ut(&pk.t1_d2_hat_mont))
+}
+pub fn pk_from_fields<const K: usize, const L: usize>(
+    rho: [u8; 32], tr: [u8; 64], t1: &[P; K],
+) -> PublicKey<K, L> {
+    PublicKey { rho, tr, t1_d2_hat_mont: ts(t1) }
+}
+
+// ---- ml_dsa.rs with every argument explicit (all three `mu` shapes reachable)
+pub fn sign_internal<
+    const CTEST: bool,
+    const K: usize,
+    const L: usize,
+    const LAMBDA_DIV4: usize,
+    const SIG_LEN: usize,
+    const SK_LEN: usize,
+    const W1_LEN: usize,
+>(
+    beta: i32, gamma1: i32, gamma2: i32, omega: i32, tau: i32, esk: &PrivateKey<K, L>,
+    message: &[u8], ctx: &[u8], oid: &[u8], phm: &[u8], rnd: [u8; 32], nist: bool,
+) -> [u8; SIG_LEN] {
+    ml_dsa::sign_internal::<CTEST, K, L, LAMBDA_DIV4, SIG_LEN, SK_LEN, W1_LEN>(
+        beta, gamma1, gamma2, omega, tau, esk, message, ctx, oid, phm, rnd, nist,
+    )
+}
+pub fn verify_internal<
+    const CTEST: bool,
+    const K: usize,
+    const L: usize,
+    const LAMBDA_DIV4: usize,
+    const PK_LEN: usize,
+    const SIG_LEN: usize,
+    const W1_LEN: usize,
+>(
+    beta: i32, gamma1: i32, gamma2: i32, omega: i32, tau: i32, epk: &PublicKey<K, L>, m: &[u8],
+    sig: &[u8; SIG_LEN], ctx: &[u8], oid: &[u8], phm: &[u8], nist: bool,
+) -> bool {
+    ml_dsa::verify_internal::<CTEST, K, L, LAMBDA_DIV4, PK_LEN, SIG_LEN, W1_LEN>(
+        beta, gamma1, gamma2, omega, tau, epk, m, sig, ctx, oid, phm, nist,
+    )
+}
+pub fn key_gen_internal<
+    const CTEST: bool,
+    const K: usize,
+    const L: usize,
+    const PK_LEN: usize,
+    const SK_LEN: usize,
+>(
+    eta: i32, xi: &[u8; 32],
+) -> (PublicKey<K, L>, PrivateKey<K, L>) {
+    ml_dsa::key_gen_internal::<CTEST, K, L, PK_LEN, SK_LEN>(eta, xi)
+}
